@@ -99,6 +99,20 @@ Definition async_step (x : sys) (s : flw) (o : op) : option (sys * obs) :=
   | _ => None
   end.
 
+(* the first operation of a writer that computes a file name fixes the start time of its name part *)
+Definition with_start (c : config) (t : Z) : config :=
+  {| c_spec := c_spec c; c_append := c_append c; c_cap := c_cap c; c_rot := c_rot c; c_utc := c_utc c;
+     c_symlink := c_symlink c; c_bg := c_bg c; c_async := c_async c; c_start := Some t |}.
+Definition ensure_start (s : flw) (w : world) : flw :=
+  if fts (c_spec (f_cfg s)) then
+    match c_start (f_cfg s) with
+    | Some _ => s
+    | None => {| f_cfg := with_start (f_cfg s) (wnow w); f_inner := f_inner s; f_poisoned := f_poisoned s |}
+    end
+  else s.
+Definition names_computed (o : op) : bool :=
+  match o with OWrite _ | OPlain _ | OQuery _ => true | _ => false end.
+
 Definition sync_step (x : sys) (o : op) : sys * obs :=
   let w := s_w x in
   let none := (x, ObsRes 3 false) in
@@ -198,7 +212,7 @@ Definition sync_step (x : sys) (o : op) : sys * obs :=
   end.
 
 (* one operation *)
-Definition step (x : sys) (o : op) : sys * obs :=
+Definition step_core (x : sys) (o : op) : sys * obs :=
   match s_flw x with
   | Some s =>
     if is_async s then
@@ -212,6 +226,16 @@ Definition step (x : sys) (o : op) : sys * obs :=
     else sync_step x o
   | None => sync_step x o
   end.
+
+Definition apply_start (x0 : sys) (o : op) : sys :=
+  match s_flw x0 with
+  | Some s => if names_computed o && negb (f_poisoned s)
+              then {| s_flw := Some (ensure_start s (s_w x0)); s_w := s_w x0; s_tl := s_tl x0; s_dead := s_dead x0 |}
+              else x0
+  | None => x0
+  end.
+
+Definition step (x0 : sys) (o : op) : sys * obs := step_core (apply_start x0 o) o.
 
 Fixpoint run (x : sys) (ops : list op) : sys * list obs :=
   match ops with
